@@ -28,6 +28,12 @@ type Comp struct {
 	// SubUID: a sub-component (VALARM; STANDARD inside VTIMEZONE) carrying a UID of its own, as RFC 9074 alarms do.
 	// The rules of RFC 4791 section 4.1 speak of the calendar's components, i.e. the top level.
 	SubUID *string `json:"sub_uid,omitempty"`
+	// TZID: the component carries DTSTART;TZID=<this> (no rule of the statement looks at it, whether or not a
+	// VTIMEZONE of that name is present)
+	TZID string `json:"tzid,omitempty"`
+	// RawUID: the UID property's raw value is set verbatim (may be undecodable iCalendar TEXT such as a bad escape);
+	// the reference then decides nothing about acceptance, only "an error comes with empty results"
+	RawUID *string `json:"raw_uid,omitempty"`
 }
 
 type Case struct {
@@ -46,6 +52,12 @@ func (c Case) key() string {
 	for _, k := range c.Comps {
 		if k.SubUID != nil {
 			fmt.Fprintf(&b, "|sub=%q", *k.SubUID)
+		}
+		if k.TZID != "" {
+			fmt.Fprintf(&b, "|tz=%q", k.TZID)
+		}
+		if k.RawUID != nil {
+			fmt.Fprintf(&b, "|raw=%q", *k.RawUID)
 		}
 		if k.UID == nil {
 			fmt.Fprintf(&b, "|%s", k.Name)
@@ -75,6 +87,17 @@ func build(c Case) *ical.Calendar {
 			comp.Props.SetText(ical.PropUID, *k.UID)
 		}
 		comp.Props.SetText(ical.PropSummary, "s")
+		if k.TZID != "" {
+			p := ical.NewProp(ical.PropDateTimeStart)
+			p.Params.Set(ical.ParamTimezoneID, k.TZID)
+			p.Value = "20240310T090000"
+			comp.Props.Set(p)
+		}
+		if k.RawUID != nil {
+			p := ical.NewProp(ical.PropUID)
+			p.Value = *k.RawUID
+			comp.Props.Set(p)
+		}
 		if k.SubUID != nil {
 			sub := ical.NewComponent("VALARM")
 			if k.Name == "VTIMEZONE" {
@@ -148,6 +171,16 @@ func evaluate(c Case) vev.Outcome {
 		}
 		sort.Strings(why)
 		return strings.Join(why, "+")
+	}
+	for _, k := range c.Comps {
+		if k.RawUID != nil {
+			// a UID text the reference does not interpret: acceptance is not asserted, only the unconditional half
+			// of the statement - an error comes with empty results
+			if err != nil && (gotT != "" || gotU != "") {
+				return vev.Outcome{Sig: vev.Sig("nonempty-on-error", "raw-uid"), Msg: fmt.Sprintf("calendar %s rejected (%v) but results not empty: (%q,%q)", c.key(), err, gotT, gotU)}
+			}
+			return vev.Outcome{}
+		}
 	}
 	switch {
 	case wantOK && err != nil:
@@ -253,6 +286,14 @@ func TestRandom(t *testing.T) {
 			default:
 				u := domUID
 				k.UID = &u
+			}
+			if rapid.IntRange(0, 5).Draw(rt, "tzid?") == 0 {
+				k.TZID = rapid.SampledFrom([]string{"Europe/Berlin", "America/New_York", "X-Own"}).Draw(rt, "tzid")
+			}
+			if rapid.IntRange(0, 11).Draw(rt, "rawuid?") == 0 {
+				ru := rapid.SampledFrom([]string{"a\\x", "a\\", "\\", "a,b", "", "a\\;b"}).Draw(rt, "rawuid")
+				k.RawUID = &ru
+				k.UID = nil
 			}
 			if rapid.IntRange(0, 7).Draw(rt, "sub?") == 0 {
 				u := uidGen.Draw(rt, "subuid")
